@@ -33,4 +33,22 @@ func init() {
 		"comparators are total orders consistent with ==")
 	meta("C02", "case i = one PRNG-chosen workload family (ascending, descending, zig-zag, random, Fibonacci-shape then deletions, delete-root, delete-min, delete-max, interleaved) of distinct ints, up to 40/255/1023 (thorough: 20000) elements, followed by a random drain; the shape is checked after every mutation; NON-TRIVIAL = at least 3 mutations; distinctness = hash of (family, size, mutation sequence)",
 		"shape reconstruction from pre+in order is exact for distinct values only")
+	meta("C07", "case i = one PRNG-generated history: NewSorted over a random input (nil/empty/1..40 values, duplicates, spare capacity) in one of 5 strict-order families or the weak-order family, then 1..100 calls of Add/Remove(present)/Remove(absent)/RemoveAt/out-of-range Get|RemoveAt/Index/Contains/Len; NON-TRIVIAL = the history contains an Add of a value already present or a Remove of an absent value (strict regime), or >= 2 calls (weak regime); distinctness = hash of input and call sequence",
+		"strict regime: less is a strict total order consistent with ==; weak regime: only sortedness and the exact multiset are judged")
+	meta("C08", "case i < 49 = shape (i mod 7) x (i div 7) (all widths/heights 0..6, every run); case i >= 49 = random shape (flat up to 70x5, tall up to 5x70, 0..12 squared-ish, 7..24); per shape a fixed script: Set every cell in random order, all out-of-bounds coordinates, Row/RowSpan liveness, Fill rectangles in all corner orders, Clone, New2DFilled, New2DFromJagged x3, String; NON-TRIVIAL = width >= 1 and height >= 1; distinctness = hash of shape and call sequence")
+	meta("C11", "case i < 625 = systematic: the first two calls are the base-25 digits of i and ALL 651 continuations of length 0..2 are enumerated (=> all histories of length <= 4 over 16 Add(k,v), 4 RemoveForward, 4 RemoveReverse, Clear); case i >= 625 = random history of 1..60 calls over up to 3 live maps with Clone; NON-TRIVIAL = systematic block, or a random history of >= 3 calls; distinctness = block index / hash of call sequence")
+	meta("C12", "case i < 81 = systematic: (len, spare capacity) = (i div 9, i mod 9): every index x inserted length 0..5 x every removal length, Grow, Concat, Clone, plus the Fill/Repeat lengths congruent to i mod 81 in 0..300 and Reverse lengths in 0..65; case i >= 81 = random length 0..5000 with sampled positions; every case is NON-TRIVIAL; distinctness = case parameters")
+	meta("C13", "case i < 65 = systematic: n = i with every size 1..70; case i >= 65 = random n <= 5000 with 12 sizes (small, <= n, around n, divisors+-1, > n); every case is NON-TRIVIAL; distinctness = case parameters")
+	meta("C14", "case L < 7 = ALL 3^L slices over {a,A,b} of length L; case >= 7 = random slice (length <= 30 or <= 2000, alphabet size 1..10, sometimes nil); every helper listed in the property is called on every input; every case is NON-TRIVIAL; distinctness = case parameters")
+	meta("C15", "case L < 8 = ALL 3^L slices over {0,1,2} of length L; case >= 8 = random slice (length <= 40 or <= 3000, universe size 1,2,3,n/4,n,2^30; sometimes pre-sorted asc/desc); every case is NON-TRIVIAL; distinctness = case parameters")
+	meta("C16", "case i = one PRNG-generated history of 1..200 calls on a zero-value Queue and a zero-value Stack with phases biased to fill or to drain; NON-TRIVIAL = at least 4 calls; distinctness = hash of call sequence")
+	meta("C20", "cases 0..255: int8 first argument a, ALL (b) pairs and ALL (b,c) triples; 256..511 the same for uint8; 512..527: all 65536 16-bit values in 16 slices; >= 528: boundary-dense samples (0, +-1, 10^k, 10^k+-1, extremes, random) of 32/64-bit integer, float, string, complex types and the utility helpers; thorough mode full32: case k = all 2^24 int32/uint32 values with top byte k; every case is NON-TRIVIAL; distinctness = case parameters",
+		"NaN excluded; Abs(min) excluded")
+	metas["C20"] = Meta{Rule: metas["C20"].Rule, Assumptions: metas["C20"].Assumptions, ExhaustivePart: "all pairs and triples of int8 and uint8; all 16-bit values (one-argument functions); thorough: all 32-bit values (one-argument functions)"}
+	metas["C11"] = Meta{Rule: metas["C11"].Rule, Assumptions: metas["C11"].Assumptions, ExhaustivePart: "all histories of length <= 4 over the 25 mutating calls from the zero value"}
+	metas["C12"] = Meta{Rule: metas["C12"].Rule, Assumptions: metas["C12"].Assumptions, ExhaustivePart: "len 0..8 x spare capacity 0..8 x every index x inserted length 0..5 x every removal length; Fill/Repeat lengths 0..300; Reverse lengths 0..65"}
+	metas["C13"] = Meta{Rule: metas["C13"].Rule, Assumptions: metas["C13"].Assumptions, ExhaustivePart: "every (n,size) with n 0..64, size 1..70"}
+	metas["C14"] = Meta{Rule: metas["C14"].Rule, Assumptions: metas["C14"].Assumptions, ExhaustivePart: "all slices over a 3-letter alphabet up to length 6"}
+	metas["C15"] = Meta{Rule: metas["C15"].Rule, Assumptions: metas["C15"].Assumptions, ExhaustivePart: "all slices over {0,1,2} up to length 7"}
+	metas["C08"] = Meta{Rule: metas["C08"].Rule, Assumptions: metas["C08"].Assumptions, ExhaustivePart: "all shapes 0..6 x 0..6 (the per-shape script samples rectangles and spans)"}
 }
